@@ -3,6 +3,7 @@ REAL pre-solve stage of the operation entry points. Inputs are token indices (sy
 their concatenation."""
 
 import einx
+import numpy as np
 import einx._src.adapter.einx_from_namedtensor as efn
 import einx._src.namedtensor.stage1 as stage1
 import einx._src.tracer as tracer
@@ -254,3 +255,41 @@ def corpus_spacing(d, g1, g2):
     if a[0] != b[0]:
         return False
     return a[0] == "syntax-error" or same_tree(a[1], b[1])
+
+
+# ---------------------------------------------------------------------------------------------------
+# the public API hands the caller's description to the parser verbatim (C12: errors quote the caller's own text;
+# strings the parser rejects are rejected by every public entry point too)
+
+API_TOK = ["a", " ", "  ", chr(9), "[b]", "[b", " -> ", chr(10), "(", "a b", ")", chr(160)]
+_API_ARGS = {
+    "sum": [np.zeros((2, 2))],
+    "id": [np.zeros((2, 2))],
+    "dot": [np.zeros((2, 2)), np.zeros((2,))],
+    "get_at": [np.zeros((2, 2)), np.zeros((2,), dtype="int64")],
+    "softmax": [np.zeros((2, 2))],
+    "solve_axes": [np.zeros((2, 2))],
+}
+
+
+def api_verbatim(opname, text):
+    import einx._src.namedtensor.stage1 as stage1
+
+    seen = []
+    orig = stage1.parse_op
+
+    def spy(t):
+        seen.append(t)
+        raise Cut()
+
+    stage1.parse_op = spy
+    try:
+        getattr(einx, opname)(text, *_API_ARGS[opname])
+    except Cut:
+        pass
+    except Exception:  # noqa: BLE001 - a rejection before parsing is not this harness' subject
+        pass
+    finally:
+        stage1.parse_op = orig
+    expected = text + " ->" if opname == "solve_axes" else text
+    return len(seen) == 0 or seen[0] == expected
